@@ -60,13 +60,13 @@ Theorem C04_joint_draw : forall (D : list val -> list (string * val) -> R) (K : 
     [num ddt; num dd; num dl; num beta;
      dict [("lambda_mst", num lam); ("lambda_mst_sigma", num slam); ("lambda_ifu", num lifu); ("lambda_ifu_sigma", num sifu); ("gamma_ppn", num g)];
      dict []; dict [("mu_sne", num mu); ("sigma_sne", num smu)]; VList [dict [("mean", num kmean); ("sigma", num ksig)]]] [] rg cu
-    (num (D [num (ddt * (l * (1 - kap))); num (dd * (1 + g) / 2)]
+    (num (D [VArr [num (ddt * (l * (1 - kap)))]; num (dd * (1 + g) / 2)]
             [("beta_dsp", num beta); ("kin_scaling", K (dict [("lambda_mst", num l); ("gamma_ppn", num g)]));
-             ("sigma_v_sys_error", VNone); ("mu_intrinsic", num (m + dl + 5 * log10 (l * (1 - kap))));
+             ("sigma_v_sys_error", VNone); ("mu_intrinsic", VArr [num (m + dl + 5 * log10 (l * (1 - kap)))]);
              ("gamma_pl", VInt 2); ("lambda_mst", num l)] + 0))
     (S (S (S cu)))
-    [("log_likelihood", [num (ddt * (l * (1 - kap))); num (dd * (1 + g) / 2); num beta; K (dict [("lambda_mst", num l); ("gamma_ppn", num g)]);
-                         VNone; num (m + dl + 5 * log10 (l * (1 - kap))); VInt 2; num l])].
+    [("log_likelihood", [VArr [num (ddt * (l * (1 - kap)))]; num (dd * (1 + g) / 2); num beta; K (dict [("lambda_mst", num l); ("gamma_ppn", num g)]);
+                         VNone; VArr [num (m + dl + 5 * log10 (l * (1 - kap)))]; VInt 2; num l])].
 Proof. exact single_joint_draw. Qed.
 Print Assumptions C04_joint_draw.
 
